@@ -1,5 +1,6 @@
 // C12 (SPTree), C13 (greedy_fvs), C14 (candidate collections), C16 (ForestIndex) - flavour I.
 //   components --comp sptree|fvs|collections|forest --n N --alpha A [--edge-orders] ...
+#include <memory>
 #include "common/runner.hpp"
 #include "common/graphs.hpp"
 #include "common/bgl.hpp"
@@ -250,11 +251,13 @@ int main(int argc, char **argv) {
     int n = (int) A.geti("n", 0);
     std::vector<std::string> fams;
     if (A.has("families")) fams = vr::split(A.get("families"), ',');
-    uint64_t total_units = fams.empty() ? vg::num_graphs(n) : fams.size();
+    std::unique_ptr<vg::BlobUniverse> blob;
+    if (A.has("grammar")) { auto t = vr::split(A.get("grammar"), ':'); blob.reset(new vg::BlobUniverse(atoi(t[1].c_str()), atoi(t[2].c_str()))); }
+    uint64_t total_units = blob ? blob->size() : fams.empty() ? vg::num_graphs(n) : fams.size();
     uint64_t seed = (uint64_t) A.geti("seed", 0);
     int max_m = (int) A.geti("max-m", 62);
     bool weighted = (comp == "sptree" || comp == "collections");
-    auto unit_graph = [&](uint64_t u) { uint64_t uu = (u + seed) % total_units; return fams.empty() ? vg::graph_from_mask(n, uu) : vg::family(fams[uu]); };
+    auto unit_graph = [&](uint64_t u) { uint64_t uu = (u + seed) % total_units; return blob ? blob->build(uu) : fams.empty() ? vg::graph_from_mask(n, uu) : vg::family(fams[uu]); };
     auto describe = [&](uint64_t u, uint64_t sub, uint64_t) {
         vg::EdgeList el = unit_graph(u);
         std::vector<double> w;
